@@ -208,7 +208,7 @@ var gritsKeywords = map[string]bool{"send": true, "recv": true, "receive": true,
 
 // identifiers that begin like a keyword, like the `o` of `-o`, or that use the rarer characters
 var trickyIdents = []string{"selfie", "self'", "self_", "self1", "newt", "new'", "cases", "lets", "letter", "inn", "in1", "typed", "typesx", "printx", "print'",
-	"waits", "closed", "sender", "sends", "recvx", "receiver", "dropx", "splits", "shifty", "castle", "fwdx", "forwards", "execs", "exec1", "prcs", "prc'",
+	"waits", "closed", "sender", "sends", "recvx", "receiver", "dropx", "splits", "shifty", "castle", "fwdx", "forwards", "execs", "execx", "prcs", "prc'",
 	"assumingx", "ends", "sprcx", "snewx", "accept'", "accx", "pushx", "relx", "detx", "acqx", "o", "ok", "out", "o'", "o_1", "oo", "x''", "__t", "X9", "l1n", "a_b'c"}
 
 // words the generator writes in mode positions (valid or not): never respelled
@@ -282,7 +282,11 @@ func TestC12(t *testing.T) {
 				// (removing a type operator can leave a sentence: in `A * 1` -> `A 1` the name is read as
 				// a mode word; operators are only doubled)
 				isOp := toks[i] == "*" || toks[i] == "-*" || toks[i] == "/\\" || toks[i] == "\\/"
-				if isOp || d.Bool("double") {
+				// the same reading arises wherever a removal puts an identifier in front of something that
+				// can start a type (`a : A , b` -> `a : A b`: mode word A, type b): such tokens are only doubled
+				startsType := func(tk string) bool { return isPlainIdent(tk) || tk == "1" || tk == "(" || tk == "+" || tk == "&" }
+				juxtaposes := i > 0 && i+1 < len(toks) && isPlainIdent(toks[i-1]) && startsType(toks[i+1])
+				if isOp || juxtaposes || d.Bool("double") {
 					out = append(append(append(out, toks[:i+1]...), toks[i]), toks[i+1:]...)
 					c.Inserted = fmt.Sprintf("%q doubled (token %d)", toks[i], i)
 				} else {
